@@ -269,6 +269,17 @@ func runCI(c *rig.Ctx, cs Case) verdict {
 	if err := c.Model("C11.run", req, &ms); err != nil {
 		return verdict{kind: "diff", class: "c11.model-error", what: "model error: " + err.Error()}
 	}
+	// judge 1 (the Lean judge on the implementation's output) before any model/code comparison
+	for i, sr := range reals {
+		if sr.Outcome != "ok" || ms[i].Expected == nil {
+			continue
+		}
+		exp := ms[i].Expected.Obs()
+		if d := obsDiff(sr.Obs, exp, false); len(d) > 0 {
+			return verdict{kind: "judge", class: "c11.expected-differs." + d[0], impl: sr.Obs, model: exp,
+				what: fmt.Sprintf("after version %d of %d the ClusterInfo is not what that version prescribes (KG.Spec.ClusterSync.expected) in: %s", i+1, len(cs.History), strings.Join(d, ", "))}
+		}
+	}
 	for i, sr := range reals {
 		m := ms[i]
 		if m.Outcome == "dead" {
@@ -285,14 +296,6 @@ func runCI(c *rig.Ctx, cs Case) verdict {
 		if d := obsDiff(sr.Obs, mo, true); len(d) > 0 {
 			return verdict{kind: "diff", class: "c11.diff.obs." + d[0], impl: sr.Obs, model: mo,
 				what: fmt.Sprintf("version %d (%s): observation of the real ClusterInfo and of the model differ in: %s", i+1, sr.Outcome, strings.Join(d, ", "))}
-		}
-		// judge 1: the Lean judge on the implementation's output
-		if sr.Outcome == "ok" {
-			exp := m.Expected.Obs()
-			if d := obsDiff(sr.Obs, exp, false); len(d) > 0 {
-				return verdict{kind: "judge", class: "c11.expected-differs." + d[0], impl: sr.Obs, model: exp,
-					what: fmt.Sprintf("after version %d of %d the ClusterInfo is not what that version prescribes (KG.Spec.ClusterSync.expected) in: %s", i+1, len(cs.History), strings.Join(d, ", "))}
-			}
 		}
 		// fresh: model vs code
 		fo := freshes[i]
